@@ -99,7 +99,9 @@ def oracle_obs(s):
 
 # ---------------- generators ----------------
 def rand_name(rng):
-    pools = ["ab", "abcxyz_0123456789", " \t\n\x00", "éßπ漢😀  ", "Addr", "uint64_t", "mapping"]
+    pools = ["ab", "abcxyz_0123456789", " \t\n\x00", "éßπ漢😀  ", "Addr", "uint64_t", "mapping",
+             # characters that %-formatting, str.format, regular expressions, shells and quoting layers treat specially
+             "%{}\\$", "%s", "%d", "%(x)s", "{0}", "'\"`", "()[]|*+?.^", "\r\x0b\x0c\x85", "\ufeff"]
     k = rng.choice([1, 1, 2, 3, 8])
     out = []
     for _ in range(k):
@@ -172,7 +174,10 @@ def small_tree(rng, depth):
 
 TEST_NAMES = ["foo", "foo<bar>", "foo<bar<baz>>", "foo<bar,baz>", "foo<bar<baz>,qux>", "mapping<string,set<UUID>>",
               "foo<", "foo>", "foo<>", "foo,bar", "foo<bar>>", "<foo>", "", "foo<bar>baz", "foo<bar>,", ",", "a<b>,c<d>",
-              "a<b,>", "a<,b>", "a<b><c>", "a b<c d, e>", "a<b\n>"]
+              "a<b,>", "a<,b>", "a<b><c>", "a b<c d, e>", "a<b\n>",
+              # the same special characters in valid and in malformed names (an error path that formats the name must not trip)
+              "100%", "100%<", "a%s<", "map<k%d,>", "%<>", "x<%(y)s>z", "%", "%%", "a<%>", "{}", "{0}<", "a<{>", "a<}>,", "\\", "a\\<b>", "a<\\>>",
+              "$x<", "a.b<c*>", "a<(b>", "a<b)>,", "^a<b>$", "a|b<", "'a'<\"b\">", "'<", "`<`>"]
 
 
 def run(ctx):
